@@ -2,24 +2,55 @@
 
 package component_definition
 
-// ---- tag arguments (abstract view used by the narrowing proofs; the concrete grammar is property C19) --------
-// ArgIn(m, t): the argument map has an entry for argument type t (after first-letter normalisation).
-// ArgHas1(m, t, w): ... and w is one of its values. Both are functions of the map object; tag arguments are
-// written only while a Property is being built (scan time), never during narrowing or injection.
-//@ spec func ArgIn(m TagArg, t ArgType) bool
-//@ spec func ArgHas1(m TagArg, t ArgType, w string) bool
+// ---- tag arguments (C19) -------------------------------------------------------------------------------------------
+// Fmt(t): the key under which an argument type is stored and looked up: first letter upper-cased (so the case of the
+// first letter of an argument name is irrelevant). ArgIn / ArgHas1 are the two observations the container makes.
+//@ spec func Fmt(t ArgType) ArgType = StrUpper(substr(t, 0, 1)) + substr(t, 1, len(t))
+//@ spec func ArgIn(m TagArg, t ArgType) bool = in(Fmt(t), m)
+//@ spec func ArgHas1(m TagArg, t ArgType, w string) bool = in(Fmt(t), m) && exists(i, int, 0 <= i && i < len(m[Fmt(t)]) && m[Fmt(t)][i] == w)
+
+//@ func formatArgType
+//@ property C19
+//@ requires [non-empty-name] argType != ""
+//@ assigns nothing
+//@ ensures [normalises-first-letter] result == Fmt(argType)
+
+//@ func isIntersect
+//@ property C19
+//@ assigns nothing
+//@ ensures [intersects] result == exists(i, int, 0 <= i && i < len(a) && exists(j, int, 0 <= j && j < len(b) && a[i] == b[j]))
+//@ loop 1 invariant [none-so-far] 0 <= _done && _done <= len(a) && forall(i, int, implies(0 <= i && i < _done, forall(j, int, implies(0 <= j && j < len(b), a[i] != b[j]))))
+//@ loop 2 invariant [none-in-row] 0 <= _done && _done <= len(b) && forall(j, int, implies(0 <= j && j < _done, a2 != b[j])) && forall(i, int, implies(0 <= i && i < _idx1, forall(j, int, implies(0 <= j && j < len(b), a[i] != b[j]))))
+
+//@ func (TagArg).Set
+//@ property C19
+//@ requires [map-allocated] m != nil
+//@ assigns mapcontents(m)
+//@ ensures [empty-name-ignored] implies(argType == "", mapdom(m) == old(mapdom(m)) && mapval(m) == old(mapval(m)))
+//@ ensures [stored-under-normalised-name] implies(argType != "", mapdom(m) == store(old(mapdom(m)), Fmt(argType), true) && mapval(m) == store(old(mapval(m)), Fmt(argType), val))
+
+//@ func (TagArg).Add
+//@ property C19
+//@ requires [map-allocated] m != nil
+//@ assigns mapcontents(m)
+//@ ensures [empty-name-ignored] implies(argType == "", mapdom(m) == old(mapdom(m)) && mapval(m) == old(mapval(m)))
+//@ ensures [appended-under-normalised-name] implies(argType != "", in(Fmt(argType), m) && len(m[Fmt(argType)]) == len(old(m[Fmt(argType)])) + len(val) && forall(k, ArgType, implies(k != Fmt(argType), in(k, m) == old(in(k, m)) && m[k] == old(m[k]))))
 
 //@ func (TagArg).Find
-//@ trusted
+//@ property C19
+//@ requires [non-empty-name] argType != ""
 //@ assigns nothing
 //@ ensures [find-ok] result1 == ArgIn(m, argType)
+//@ ensures [find-values] implies(result1, result0 == m[Fmt(argType)])
 
 //@ func (TagArg).Has
-//@ trusted
+//@ property C19
+//@ requires [non-empty-name] argType != ""
 //@ assigns nothing
 //@ ensures [has-one] implies(len(wants) == 1, result == ArgHas1(m, argType, wants[0]))
 //@ ensures [has-any] implies(len(wants) == 0, result == ArgIn(m, argType))
 //@ ensures [has-needs-entry] implies(result, ArgIn(m, argType))
+//@ ensures [has-is-intersection] implies(len(wants) != 0, result == (ArgIn(m, argType) && exists(i, int, 0 <= i && i < len(m[Fmt(argType)]) && exists(j, int, 0 <= j && j < len(wants) && m[Fmt(argType)][i] == wants[j]))))
 
 //@ func (*Property).Args
 //@ property C08
@@ -190,3 +221,51 @@ package component_definition
 // PropOK(p): what the narrowing stage leaves behind for a component property and what Inject needs: a well-formed
 // point over a settable field whose remaining candidates are built Metas (C08 [injects-nil-free], C11 field scan).
 //@ spec func PropOK(p *Property) bool = PointOK(p) && IsComponentPoint(p) && forall(i, int, implies(0 <= i && i < len(p.Injects), MetaOK(p.Injects[i])), p.Injects[i]) && implies(len(p.Injects) != 0, RCanSet(p.Value) && RTypeOf(p.Value) == p.Type && RFieldLoc(RLoc(p.Value)) && p.Type.Kind() != 17)
+
+// ---- tag grammar (C19): value, then comma-separated arguments name=v1 v2 -------------------------------------------
+//   SegName(e)  the argument name of segment e: the text before the first '=' (the whole segment if there is none)
+//   SegRest(e)  the text after the first '='
+//@ spec func SegName(e string) string = ite(StrIndex(e, "=") == -1, e, substr(e, 0, StrIndex(e, "=")))
+//@ spec func SegRest(e string) string = substr(e, StrIndex(e, "=") + 1, len(e))
+//@ spec func SegKey(tag string, k int) ArgType = Fmt(ArgType(SegName(SegAt(tag, ",", k))))
+//@ spec func SegNamed(tag string, k int) bool = SegName(SegAt(tag, ",", k)) != ""
+//   LastOf(tag, k, hi): no named segment after k and before hi has the same (normalised) argument name as segment k
+//@ spec func LastOf(tag string, k int, hi int) bool := forall(j, int, implies(k < j && j < hi && SegNamed(tag, j), SegKey(tag, j) != SegKey(tag, k)))
+
+//@ func (TagArg).Parse
+//@ property C19
+//@ requires [map-allocated] m != nil
+//@ assigns mapcontents(m)
+//@ ensures [value-is-first-segment] result == SegAt(tag, ",", 0)
+//@ ensures [arg-per-segment] forall(k, int, implies(1 <= k && k < SegN(tag, ",") && SegNamed(tag, k), in(SegKey(tag, k), m)))
+//@ ensures [last-flag-segment-wins] forall(k, int, implies(1 <= k && k < SegN(tag, ",") && SegNamed(tag, k) && LastOf(tag, k, SegN(tag, ",")) && StrIndex(SegAt(tag, ",", k), "=") == -1, len(mapval(m)[SegKey(tag, k)]) == 1 && mapval(m)[SegKey(tag, k)][0] == ""))
+//@ ensures [last-valued-segment-wins] forall(k, int, implies(1 <= k && k < SegN(tag, ",") && SegNamed(tag, k) && LastOf(tag, k, SegN(tag, ",")) && StrIndex(SegAt(tag, ",", k), "=") != -1, len(mapval(m)[SegKey(tag, k)]) == SegN(SegRest(SegAt(tag, ",", k)), " ") && forall(i, int, implies(0 <= i && i < len(mapval(m)[SegKey(tag, k)]), mapval(m)[SegKey(tag, k)][i] == SegAt(SegRest(SegAt(tag, ",", k)), " ", i)))))
+//@ ensures [nothing-else] forall(key, ArgType, implies(forall(k, int, implies(1 <= k && k < SegN(tag, ",") && SegNamed(tag, k), SegKey(tag, k) != key)), in(key, m) == old(in(key, m)) && mapval(m)[key] == old(mapval(m)[key])))
+//@ loop 1 invariant [values-allocated] forall(key, ArgType, allocated(mapval(m)[key]), mapval(m)[key])
+//@ loop 1 invariant [bounds] 0 <= _done && _done <= SegN(old(tag), ",") - 1 && len(exps) == SegN(old(tag), ",") - 1
+//@ loop 1 invariant [segments] forall(i, int, implies(0 <= i && i < len(exps), exps[i] == SegAt(old(tag), ",", i + 1)), exps[i])
+//@ loop 1 invariant [arg-per-segment] forall(k, int, implies(1 <= k && k <= _done && SegNamed(old(tag), k), in(SegKey(old(tag), k), m)))
+//@ loop 1 invariant [last-flag-segment-wins] forall(k, int, implies(1 <= k && k <= _done && SegNamed(old(tag), k) && LastOf(old(tag), k, _done + 1) && StrIndex(SegAt(old(tag), ",", k), "=") == -1, len(mapval(m)[SegKey(old(tag), k)]) == 1 && mapval(m)[SegKey(old(tag), k)][0] == ""))
+//@ loop 1 invariant [last-valued-segment-wins] forall(k, int, implies(1 <= k && k <= _done && SegNamed(old(tag), k) && LastOf(old(tag), k, _done + 1) && StrIndex(SegAt(old(tag), ",", k), "=") != -1, len(mapval(m)[SegKey(old(tag), k)]) == SegN(SegRest(SegAt(old(tag), ",", k)), " ") && forall(i, int, implies(0 <= i && i < len(mapval(m)[SegKey(old(tag), k)]), mapval(m)[SegKey(old(tag), k)][i] == SegAt(SegRest(SegAt(old(tag), ",", k)), " ", i)))))
+//@ loop 1 invariant [nothing-else] forall(key, ArgType, implies(forall(k, int, implies(1 <= k && k <= _done && SegNamed(old(tag), k), SegKey(old(tag), k) != key)), in(key, m) == old(in(key, m)) && mapval(m)[key] == old(mapval(m)[key])))
+
+//@ func NewProperty
+//@ property C19 C11
+//@ assigns nothing
+//@ ensures [fresh-property] result != nil && fresh(result) && result.Field == field && result.PropertyType == propType && result.Tag == tag && len(result.Injects) == 0
+//@ ensures [value-is-first-segment] result.TagStr == SegAt(tagVal, ",", 0) && result.TagVal == SegAt(tagVal, ",", 0)
+//@ ensures [args-parsed] result.args != nil && fresh(result.args) && forall(k, int, implies(1 <= k && k < SegN(tagVal, ",") && SegNamed(tagVal, k), in(SegKey(tagVal, k), result.args)))
+//@ ensures [no-other-args] forall(key, ArgType, implies(forall(k, int, implies(1 <= k && k < SegN(tagVal, ",") && SegNamed(tagVal, k), SegKey(tagVal, k) != key)), !in(key, result.args)))
+
+//@ func (*Property).SetArg
+//@ property C19
+//@ requires [property-built] n != nil && n.args != nil
+//@ assigns mapcontents(n.args)
+//@ ensures [set] implies(t != "", mapdom(n.args) == store(old(mapdom(n.args)), Fmt(t), true) && mapval(n.args) == store(old(mapval(n.args)), Fmt(t), val))
+//@ ensures [empty-name-ignored] implies(t == "", mapdom(n.args) == old(mapdom(n.args)) && mapval(n.args) == old(mapval(n.args)))
+
+//@ func (*Property).AddArg
+//@ property C19
+//@ requires [property-built] n != nil && n.args != nil
+//@ assigns mapcontents(n.args)
+//@ ensures [added] implies(t != "", in(Fmt(t), n.args) && len(n.args[Fmt(t)]) == len(old(n.args[Fmt(t)])) + len(val))
